@@ -98,6 +98,8 @@ def replayer(name, args, kwargs, meta):
         b, j, dup = args
         verbose = (j % 2 == 1)
         text = m.edited_text(b, j, dup)
+        if text is None:
+            return False, {"summary": "base page %d has no token %d: nothing to compile" % (b, j)}
     elif name == "kf_unflagged_broken_page":
         text, verbose = m.KF_PAGES[args[0]], args[1]
     elif name == "refusal":
